@@ -97,6 +97,11 @@ def mk_register(kind="reg3"):
 
         lay = RegisterLayout([[0.0, 0.0], [5.0, 0.0], [0.0, 5.0], [5.0, 5.0], [10.0, 0.0], [10.0, 5.0]], slug="lay6")
         return lay.define_register(0, 2, 1, qubit_ids=("q0", "q1", "q2"))
+    if kind == "mapped3":  # the concrete register that mappable3 resolves to with qubits={"q0": 1, "q1": 4}
+        from pulser.register.register_layout import RegisterLayout
+
+        lay = RegisterLayout([[0.0, 0.0], [5.0, 0.0], [0.0, 5.0], [5.0, 5.0], [10.0, 0.0], [10.0, 5.0]], slug="lay6")
+        return lay.define_register(1, 4, qubit_ids=("q0", "q1"))
     if kind == "mappable3":
         from pulser.register.mappable_reg import MappableRegister
         from pulser.register.register_layout import RegisterLayout
@@ -245,6 +250,8 @@ def run_op(inp, seq, op):
     if n == "add":
         return seq.add(mk_pulse(inp, op[2]), op[1], *( [op[3]] if len(op) > 3 else [] ))
     if n == "delay":
+        if len(op) > 4 and op[4] == "positional":
+            return seq.delay(val(inp, op[2]), op[1], op[3])
         return seq.delay(val(inp, op[2]), op[1], **({"at_rest": op[3]} if len(op) > 3 else {}))
     if n == "target":
         return seq.target(op[2], op[1])
